@@ -214,8 +214,8 @@ def o_resume_with_publish(ad, a, b, c):
     return ops
 
 
-TRIGGERS = ["publish_ok", "onPublish", "subscribe_ok", "connect_ok", "onMqttConnectionMade", "publish_ok", "onPublish", "publish_ok"]
-ACTIONS = ["disconnect", "publish", "disconnect", "subscribe", "publish", "unsubscribe", "disconnect", "publish"]
+TRIGGERS = ["publish_ok", "onPublish", "subscribe_ok", "connect_ok", "onMqttConnectionMade", "publish_ok", "request_failed", "publish_ok"]
+ACTIONS = ["disconnect", "publish", "disconnect", "subscribe", "publish", "unsubscribe", "publish", "publish"]
 
 
 def o_arm(ad, a, b, c):
